@@ -1,3 +1,4 @@
+from harness import ppool
 import json
 import multiprocessing as mp
 import os
@@ -166,7 +167,7 @@ def run(chk):
     n = 16 if chk.tier == 'quick' else 160
     ctx = mp.get_context('fork')
     errors = []
-    with ctx.Pool(min(16, os.cpu_count() or 4), initializer=_init) as pool:
+    with ppool.Pool(ctx, min(16, os.cpu_count() or 4), initializer=_init) as pool:
         for res in pool.imap_unordered(case, [(chk.seed * 104729 + i,) for i in range(n)]):
             if 'error' in res:
                 errors.append(res['error'])
